@@ -561,6 +561,7 @@ package measure
 //@   pure
 //@ func memPart.mustInitFromDataPoints#duplicate-rule
 //@   mode int
+//@   timeout 40
 //@   opt fragment writes tsPrev
 //@   opt only-stated
 //@   requires dps != nil && sidPrev == 0 && tsPrev == 0 && indexPrev == 0
@@ -655,6 +656,7 @@ package measure
 // makes a concatenation of fields - a series key - decode back to the same values, so two different value lists never share a key.
 //@ ghost var fieldValue []byte
 //@ func unmarshalVarArray#inverse
+//@   timeout 30
 //@   mode int
 //@   uses escLenMono escLenBounds
 //@   opt split-returns
